@@ -26,6 +26,9 @@ type TypeDef struct {
 	// Rules are enum rules added to the type's own schema object (needed when the type text
 	// itself says {enum: @name}).
 	Rules []RuleDef `json:"rules,omitempty"`
+	// Own: types added to this type's schema object only (the root is not given them: they reach
+	// it through this type). Used by the C11 families.
+	Own []TypeDef `json:"own_types,omitempty"`
 }
 
 // RuleDef is a named enum rule.
